@@ -160,10 +160,10 @@ func scenC13(r *Run) {
 					}
 					if !errors.Is(o.err, core.ErrRequestEntityTooLarge) && (o.err == nil || o.err.Error() != core.ErrRequestEntityTooLarge.Error()) {
 						how := ""
-						if o.err != nil && kind == "socket" && (strings.Contains(o.err.Error(), "write") && strings.Contains(o.err.Error(), "closed") || o.err.Error() == "EOF") {
+						if o.err != nil && kind == "socket" && (strings.Contains(o.err.Error(), "write") && strings.Contains(o.err.Error(), "closed") || o.err.Error() == "EOF" || o.err.Error() == "unexpected EOF") {
 							// the server refused on the header and closed; the client's write of the body failed before
-							// its receive loop read the refusal (the caller sees that write error, or the EOF of the
-							// receive loop that the teardown ended - whichever is reported first)
+							// its receive loop read the refusal (the caller sees that write error, or the EOF - "unexpected" if
+							// the refusal frame was cut - of the receive loop that the teardown ended, whichever comes first)
 							how = ":body-write-failed-on-closed-connection"
 						}
 						r.Fail("C13:no-too-large-error:"+kind+":truthful"+how, "limit %d, body %d: the caller got (%d bytes, %v) instead of the request-too-large error", L, size, len(o.resp), o.err)
@@ -263,7 +263,7 @@ func scenC13(r *Run) {
 		}
 		for i, e := range errs {
 			if !errors.Is(e, core.ErrRequestEntityTooLarge) && (e == nil || e.Error() != core.ErrRequestEntityTooLarge.Error()) {
-				if kind == "socket" && e != nil && (strings.Contains(e.Error(), "closed") || e.Error() == "EOF") {
+				if kind == "socket" && e != nil && (strings.Contains(e.Error(), "closed") || e.Error() == "EOF" || e.Error() == "unexpected EOF") {
 					continue // the recorded socket finding: refusal lost when the body write fails first
 				}
 				r.Fail("C13:no-too-large-error:"+kind+":concurrent-oversized", "limit %d: %d oversized requests at once, caller %d got %v instead of the request-too-large error (all: %v)", L, n, i, e, errs)
